@@ -136,7 +136,7 @@ func Run(id string, start time.Time) int {
 		rn.corpus[h.Hash(string(s.Data))] = true
 	}
 	nIn := len(seeds) + h.Pick(8000, 120000)
-	nCLI := len(seeds) + h.Pick(700, 12000)
+	nCLI := NCLI(len(seeds))
 
 	if d, err := strconv.Atoi(os.Getenv("P16_DEBUG_N")); err == nil { // debugging aid only
 		nIn, nCLI = len(seeds)+d, len(seeds)+d/10
